@@ -32,7 +32,7 @@
    FRONTEND is well-formed (front_wf) needs the frontend model (property C10) and is covered at run
    time instead: ./check C11 evaluates this validator (vm_compute) on every IR the real frontend
    produces for generated and corpus queries — translation-validation strength. *)
-From TF Require Import Values Exec Sem Sim SimComp SimOut SimTop WfIR WfIRProofs.
+From TF Require Import Values Exec Sem Sim SimComp SimOut SimTop FoldOut SimGen SemT SimGenT EraseSem SimFinal WfIR WfIRProofs WfRefine.
 Local Open Scope string_scope.
 Local Open Scope list_scope.
 
@@ -123,6 +123,29 @@ Theorem C11_spec_assignments_have_shape :
 Proof. exact sem_comp_inv. Qed.
 Print Assumptions C11_spec_assignments_have_shape.
 
+(* (c, complete) every hypothesis of the whole-query refinement theorem SimFinal.interpret_refines_sem
+   follows from wf_ir, through lowering: fresh import keys at every fold (wf_comp_t), distinct fold
+   output keys and fold eids at every level (wf_out), distinct output names, and the erasure
+   conditions (fold-count references name the fold's root consistently, so nothing reads the count of
+   a fold that compute_fold truncates).  What remains is the one non-structural condition
+   `no_saturation args q'`: at every nesting level, a fold that compute_fold truncates with
+   take(min) has min < usize::MAX (it depends on the argument values). *)
+Theorem C11_wf_ir_refine_hyps :
+  forall args q q', wf_ir q = true -> lower_query q = Ok q' -> no_saturation args (q_comp q') = true ->
+    wf_comp_t [] (q_comp q') /\ wf_out (q_comp q') /\ NoDup (all_output_names (q_comp q')) /\
+    erasable args (q_comp q').
+Proof. exact wf_ir_refine_hyps. Qed.
+Print Assumptions C11_wf_ir_refine_hyps.
+
+(* ... so the engine model returns exactly the specification's rows (same order, rows as maps) on
+   EVERY well-formed query — any nesting of @fold / @optional / @recurse, tags, count filters *)
+Theorem C11_wf_ir_engine_refines :
+  forall re g args q q' rows,
+    ty_indep g -> wf_ir q = true -> lower_query q = Ok q' -> no_saturation args (q_comp q') = true ->
+    interpret re g args q' = Ok rows -> Forall2 row_equiv rows (sem re g args q').
+Proof. exact wf_ir_engine_refines. Qed.
+Print Assumptions C11_wf_ir_engine_refines.
+
 (* ---- (d) non-vacuity: IRs printed from the real frontend (harness irprint) ---- *)
 (* generated query (world schema):
 query {
@@ -202,6 +225,22 @@ Definition c11_count : raw_query :=
 Example C11_corpus_queries_are_wf : wf_ir c11_nested = true /\ wf_ir c11_count = true.
 Proof. vm_compute. split; reflexivity. Qed.
 Print Assumptions C11_corpus_queries_are_wf.
+
+(* the premises of C11_wf_ir_refine_hyps are met by real IRs with folds (count filters with
+   variables and tags, nested folds, imported count tags); the executable side conditions of
+   SimFinal (refine_hyps) agree *)
+Example C11_refine_premises_satisfiable :
+  let args1 := [("six", I64 6%Z); ("zero", I64 0%Z)] in
+  let args2 := [("v10", List [I64 1%Z; I64 2%Z]); ("v13", I64 0%Z)] in
+  wf_ir c11_count = true /\ wf_ir c11_real_query = true /\
+  match lower_query c11_count, lower_query c11_real_query with
+  | Ok q1, Ok q2 =>
+      no_saturation args1 (q_comp q1) = true /\ refine_hyps args1 q1 = true /\
+      no_saturation args2 (q_comp q2) = true /\ refine_hyps args2 q2 = true
+  | _, _ => False
+  end.
+Proof. vm_compute. repeat split. Qed.
+Print Assumptions C11_refine_premises_satisfiable.
 
 (* ---- hand-broken IRs are rejected ---- *)
 (* the outer fold no longer imports the tag its nested fold uses *)
